@@ -324,3 +324,81 @@ impl BytesPayload for RawS {
 pub fn token_header<M: Payload>(ver: Ver, purpose: &str) -> String {
     format!("{}{}.{purpose}.", ver.v(), M::SUFFIX)
 }
+
+/// The purpose-specific alias methods of the public API (`encrypt[_with_aad]`, `decrypt[_with_aad]`,
+/// `sign[_with_aad]`, `verify[_with_aad]`) next to the generic `seal` / `unseal`, selectable by
+/// a generated index so that every entry point is exercised.
+pub trait Aliases<VV>: paseto_core::version::Purpose + Sized
+where
+    VV: SealingVersion<Self>,
+{
+    /// which: 0 generic seal, 1 *_with_aad alias, 2 plain alias (only meaningful with an empty assertion)
+    fn seal_via<M: Payload, F: paseto_core::encodings::Footer>(
+        which: u8,
+        tok: paseto_core::tokens::UnsealedToken<VV, Self, M, F>,
+        key: &Key<VV, Self::SealingKey>,
+        aad: &[u8],
+    ) -> Result<paseto_core::tokens::SealedToken<VV, Self, M, F>, PasetoError>;
+    fn unseal_via<M: Payload, F: paseto_core::encodings::Footer, Val: paseto_core::validation::Validate<Claims = M>>(
+        which: u8,
+        tok: paseto_core::tokens::SealedToken<VV, Self, M, F>,
+        key: &Key<VV, Self>,
+        aad: &[u8],
+        v: &Val,
+    ) -> Result<paseto_core::tokens::UnsealedToken<VV, Self, M, F>, PasetoError>;
+    fn alias_name(which: u8, aad_empty: bool, sealing: bool) -> &'static str;
+}
+
+impl<VV: SealingVersion<Local>> Aliases<VV> for Local {
+    fn seal_via<M: Payload, F: paseto_core::encodings::Footer>(which: u8, tok: paseto_core::tokens::UnsealedToken<VV, Local, M, F>, key: &Key<VV, Local>, aad: &[u8]) -> Result<paseto_core::tokens::SealedToken<VV, Local, M, F>, PasetoError> {
+        match which % 3 {
+            1 => tok.encrypt_with_aad(key, aad),
+            2 if aad.is_empty() => tok.encrypt(key),
+            _ => tok.seal(key, aad),
+        }
+    }
+    fn unseal_via<M: Payload, F: paseto_core::encodings::Footer, Val: paseto_core::validation::Validate<Claims = M>>(which: u8, tok: paseto_core::tokens::SealedToken<VV, Local, M, F>, key: &Key<VV, Local>, aad: &[u8], v: &Val) -> Result<paseto_core::tokens::UnsealedToken<VV, Local, M, F>, PasetoError> {
+        match which % 3 {
+            1 => tok.decrypt_with_aad(key, aad, v),
+            2 if aad.is_empty() => tok.decrypt(key, v),
+            _ => tok.unseal(key, aad, v),
+        }
+    }
+    fn alias_name(which: u8, aad_empty: bool, sealing: bool) -> &'static str {
+        match (which % 3, aad_empty, sealing) {
+            (1, _, true) => "encrypt_with_aad",
+            (2, true, true) => "encrypt",
+            (_, _, true) => "seal",
+            (1, _, false) => "decrypt_with_aad",
+            (2, true, false) => "decrypt",
+            (_, _, false) => "unseal",
+        }
+    }
+}
+
+impl<VV: SealingVersion<Public>> Aliases<VV> for Public {
+    fn seal_via<M: Payload, F: paseto_core::encodings::Footer>(which: u8, tok: paseto_core::tokens::UnsealedToken<VV, Public, M, F>, key: &Key<VV, Secret>, aad: &[u8]) -> Result<paseto_core::tokens::SealedToken<VV, Public, M, F>, PasetoError> {
+        match which % 3 {
+            1 => tok.sign_with_aad(key, aad),
+            2 if aad.is_empty() => tok.sign(key),
+            _ => tok.seal(key, aad),
+        }
+    }
+    fn unseal_via<M: Payload, F: paseto_core::encodings::Footer, Val: paseto_core::validation::Validate<Claims = M>>(which: u8, tok: paseto_core::tokens::SealedToken<VV, Public, M, F>, key: &Key<VV, Public>, aad: &[u8], v: &Val) -> Result<paseto_core::tokens::UnsealedToken<VV, Public, M, F>, PasetoError> {
+        match which % 3 {
+            1 => tok.verify_with_aad(key, aad, v),
+            2 if aad.is_empty() => tok.verify(key, v),
+            _ => tok.unseal(key, aad, v),
+        }
+    }
+    fn alias_name(which: u8, aad_empty: bool, sealing: bool) -> &'static str {
+        match (which % 3, aad_empty, sealing) {
+            (1, _, true) => "sign_with_aad",
+            (2, true, true) => "sign",
+            (_, _, true) => "seal",
+            (1, _, false) => "verify_with_aad",
+            (2, true, false) => "verify",
+            (_, _, false) => "unseal",
+        }
+    }
+}
